@@ -22,6 +22,10 @@ GeoFails(e) ==
   \cup (IF \E a \in 1..n : ~Close(o.awc6[a],
              FxDiv(SumN(LAMBDA b : o.A[b][a] * CosLat4(e.lat[b]), 1, n), SumN(LAMBDA b : CosLat4(e.lat[b]), 1, n), 1000000), 300)
         THEN {"CosLat|area_weighted_connectivity"} ELSE {})
+  \* ... under every node-weight type (the network is undirected: in = out = total)
+  \cup (IF \E a \in 1..n : ~(Close(o.awc6_irr[a], o.awc6[a], 3) /\ Close(o.awc6_none[a], o.awc6[a], 3)
+                               /\ Close(o.awc6_in[a], o.awc6[a], 3) /\ Close(o.awc6_out[a], o.awc6[a], 3))
+        THEN {"CosLat|area_weighted_connectivity(node_weight_type)"} ELSE {})
   \cup (IF \E a \in 1..n : ~Close(o.maxld6[a], MaxN(LAMBDA b : o.A[a][b] * o.ang[a][b], 1, n, 0), 5)
         THEN {"Consistent|max_link_distance"} ELSE {})
   \* "irrigation" weights are cos^2(lat); totals and means are those of the weight vector in force
@@ -43,6 +47,8 @@ EucFails(e) ==
   \cup (IF \E a \in 1..n : \E b \in 1..n : ~SqrtOK(o.d3[a][b], SqDist(e.pts[a], e.pts[b]))
         THEN {"ClosedForm|euclidean_distance"} ELSE {})
   \cup (IF o.d3b # o.d3 THEN {"Stable|euclidean_distance"} ELSE {})
+  \cup (IF \E a \in 1..n : \E b \in 1..n : ~Close(o.d3far[a][b], o.d3[a][b], 1)
+        THEN {"Translation|euclidean_distance"} ELSE {})
   \* Grid.node_number: the node reported for an integer query point is at minimal (squared) distance
   \cup (IF \E k \in 1..Len(o.queries) :
             LET r == o.nearest[k] + 1 IN
